@@ -1,6 +1,6 @@
 import MpsVerif.Core.Sys
 /-!
-# The pinned loop head of `_build_input_batches` loses a wake-up (finding F22)
+# The pinned loop head of `_build_input_batches` loses a wake-up (finding F25)
 
 Pinned code (src/mpservice/mpserver/_worker.py:545-547):
 
